@@ -10,6 +10,13 @@
      shared_future.h:104-110 ctor from fn returning future -> mode MFut  : make_shared() ; result_of(fn) ; if pending() charge
      shared_future.h:130-145 init_if_needed / get_promise  -> modes MLate, MLate2 (through a copy of an initialised handle)
      shared_future.h:120-122 set_value                     -> mode MPre  (born ready: not pending, no charge)
+     shared_future.h:104-110 + async.h:50-59,216-229       -> mode MCoro : ctor from `[&]{return coro().start();}`: the state is
+                                                              the future of an async coroutine parked on a gate; the resolver opens
+                                                              the gate and the coroutine's co_return / final_suspend resolve the state
+     implicit copy ctor / copy assignment / move assignment / self-assignment of the handle -> cpk (CpCtor, CpAssign, CpMove, CpSelf);
+       the other state released by an assignment is a private ready state of that user: its release is observed through the
+       instance counter and the sanitizers, it is not part of this model (concurrent use of the SAME handle object by two threads
+       is a data race by the C++ rules and excluded: every thread works on its own handle objects)
      shared_future.h:211-220 resolve_cb::charge            -> CSet (216) ; CSub (217, awaiter.h:121-136) ; CClr (218)
      shared_future.h:212-215 tracer callback               -> RClr (213), reached from the resolver's walk
      future.h:641-648 promise::set_value, 557-559 resolve, awaiter.h:96-112 resume_chain_set_ready / resume_chain_lk
